@@ -344,6 +344,8 @@ class Interp:
         c_new, m_new = self.find_method(cls, "__new__")
         if m_new is not None and isinstance(c_new, NativeClass):
             obj = m_new(self, cls, *args, **kwargs)
+            if not isinstance(obj, SObj):
+                return obj  # a natively modelled value (e.g. torch.FloatTensor(data))
         else:
             obj = SObj(cls)
             for c in cls.mro():
@@ -855,6 +857,14 @@ class Interp:
         b = self.repo.externals["builtins"]
         if b.has(e.id):
             return b.get(e.id)
+        # a variable that a loop under contract assigns but whose value the loop invariant does not describe
+        ee = env
+        while ee is not None:
+            hv = ee.vars.get("__havoced__")
+            if hv and e.id in hv:
+                self.ctx.oblige(f"{self.ctx.ghost.get('prefix', '?')}/inv:{hv[e.id]}:variable-{e.id}-is-carried-across-iterations-but-not-described-by-the-loop-invariant", False, (), "inv")
+                raise PathEnd("value not described by the loop invariant")
+            ee = ee.parent
         # definite assignment: a local that is assigned somewhere in the function but not on this path
         if env.fn is not None and _assigned_in(env.fn.node, e.id):
             raise RaisedEx("UnboundLocalError", f"local variable '{e.id}' referenced before assignment", self.ctx.loc)
